@@ -21,13 +21,13 @@ PROPS = {
 }
 CORE_ASSUME = [
     "Verus 0.2026.09.13 + Z3 + vstd's specifications of core/alloc (Vec, Option, Result, Box, Rc, str, Chars, slices) and its UTF-8 theory",
-    "the extractor: token-level copy of the listed functions from /repo on every run plus the closed rewrite table (R1,R2,R3,R4,R9,R10,R15,R16,R17,R18); generated file and line map kept in /verif/out",
-    "std contracts restated on trusted helpers (external_body, body = the original std call): Vec::drain/extend/rev, sort+dedup, String::from, str indexing by a range (vstd specifies only its precondition), str::get -> SliceIndex::get, str::eq_ignore_ascii_case",
+    "the extractor: token-level copy of the listed functions from /repo on every run plus the closed rewrite table (R1,R2,R3,R4,R9,R10,R15,R16,R17,R18,R25,R26,R27,R28); generated file and line map kept in /verif/out",
+    "std contracts restated on trusted helpers (external_body, body = the original std call): Vec::drain/extend/rev, Vec::splice(n.., w) with the result dropped, a relaxed load of a global atomic returns some value, sort+dedup, String::from, str indexing by a range (vstd specifies only its precondition), str::get -> SliceIndex::get, str::eq_ignore_ascii_case",
     "a str occupies at most isize::MAX bytes; a Vec<R> holds at most isize::MAX elements; stack depth fits i32 in normalize_index",
     "Clone returns an equal value for stack elements (SpanOrLiteral) and for rule types (Copy)",
     "closures passed to combinators are 'lawful': their precondition is implied by the state invariant and they satisfy the frame law and the refusal law (every operation is proved to satisfy both, given that its closure arguments do: induction over call trees). Closures whose preconditions need more than the invariant (stack_peek/stack_pop on a possibly empty stack) and Result::or_else chains (refusal law) are outside this class",
     "pointer identity of input slices (ptr::eq in Position::span) is not modelled: value equality of the input is proved instead",
-    "functions with ASSUMED contracts (external_body; not proved): CallLimitTracker::limit_reached/default, ParseAttempts::new/try_add_new_stack_rule, BorrowedOrArc::as_str, SpanOrLiteral::as_borrowed_or_rc, Position::span, constrain_idxs, stack_match_peek_slice, Error::new_from_pos*, pairs::new (verified in the pairs unit)",
+    "functions with ASSUMED contracts (external_body; not proved): BorrowedOrArc::as_str, SpanOrLiteral::as_borrowed_or_rc, Position::span, constrain_idxs (proved complete by a loop-free Kani harness), stack_match_peek_slice, Error::new_from_pos*, pairs::new (verified in the pairs unit)",
     "partial correctness for ParserState::repeat (it legitimately diverges on non-progressing closures)",
     "configurations: C03 is verified twice, with feature memchr OFF (skip_until -> skip_until_basic) and ON (memmem / memchr2 / memchr3 arms under the memchr crate's documented contract, declared on a stand-in module: ASSUMED dependency contract); the other properties use the memchr-OFF configuration; debug_assertions ON (debug_assert operands are proved)",
 ]
@@ -82,9 +82,9 @@ PROPS["C15"] = dict(
     kani=[], searcher=["state"],
     design_ref="DESIGN.md section 5, C15",
     technique="contract-based deductive verification (Verus): frame obligations at every place that consults parse_attempts.enabled, two-run lemmas derived from the matcher contracts, boundary invariant on max_position",
-    level_text="Proved: handle_token_parse_result, try_add_new_token, nullify_expected_tokens and the detail block inlined in rule change nothing but parse_attempts; for the four matchers a two-run lemma (states equal except parse_attempts => results equal except parse_attempts, same Ok/Err) follows from their contracts; max_position is always a UTF-8 boundary of the input. try_add_new_stack_rule (iterator adaptors, splice) has an assumed contract.",
-    level_note="As C03. Not covered: no-panic of try_add_new_stack_rule's index arithmetic (assumed), rendering of the help message (format!/BTreeMap). Non-interference for rule/state rests on the frame assertions around the guarded blocks plus the syntactic fact that the remembered counters are used only inside them.",
-    assumptions=CORE_ASSUME, not_covered=CORE_NOT_COVERED + ["try_add_new_stack_rule: contract assumed (bounded harness planned)", "parse_attempts_error help text (format!, BTreeMap)"],
+    level_text="Proved: handle_token_parse_result, try_add_new_token, nullify_expected_tokens and the detail block inlined in rule change nothing but parse_attempts; for the four matchers a two-run lemma (states equal except parse_attempts => results equal except parse_attempts, same Ok/Err) follows from their contracts; max_position is always a UTF-8 boundary of the input. try_add_new_stack_rule is verified from its body (iterator adaptors desugared by R25/R25b, splice through the std contract R26): in-range given start_index <= len, touches only call_stacks above start_index.",
+    level_note="As C03. Not covered: rendering of the help message (format!/BTreeMap). Non-interference for rule/state rests on the frame assertions around the guarded blocks plus the syntactic fact that the remembered counters are used only inside them.",
+    assumptions=CORE_ASSUME, not_covered=CORE_NOT_COVERED + ["parse_attempts_error help text (format!, BTreeMap)"],
 )
 
 PROPS["C10"] = dict(
